@@ -487,6 +487,63 @@ def gen_func(tier):
     return cases
 
 
+# ---------------------------------------------------------------------------
+# a fold iterates its target with the handler registered NOW: registrations between two folds of one spec object take effect
+
+class _Pile:
+    def __init__(self, items):
+        self.items = items
+
+    def __iter__(self):
+        return iter(self.items)
+
+
+def run_registration(case):
+    from glom import Glommer
+    kind, history = case
+    mk = {'sum': lambda: Sum(), 'flatten': lambda: Flatten(), 'fold': lambda: Fold(T, init=list, op=lambda a, x: a + [x]), 'merge': lambda: Merge()}[kind]
+    items = {'sum': [1, 2, 3], 'flatten': [[1], [2, 3]], 'fold': [1, 2], 'merge': [{'a': 1}, {'b': 2}]}[kind]
+    other = {'sum': [10], 'flatten': [[9]], 'fold': [7], 'merge': [{'z': 0}]}[kind]
+    g = Glommer()
+    spec = mk()
+    state = 'default'        # which items a fold sees: the object's own __iter__, the registered replacement, or nothing (iterate=False)
+    for i, ev in enumerate(history):
+        if ev == 'fold':
+            try:
+                got = ('ok', repr(g.glom(_Pile(items), spec)))
+            except FoldError:
+                got = ('FoldError',)
+            except Exception as e:
+                got = ('exc', type(e).__name__)
+            if state == 'off':
+                want = ('FoldError',)
+            else:
+                want = ('ok', repr(glom(items if state == 'default' else other, mk())))
+            if got != want:
+                return R({'expected': 'event %d: %r (registration state: %s)' % (i, want, state), 'observed': repr(got), 'spec': kind, 'history': history}, 'registration')
+        elif ev == 'register-other':
+            g.register(_Pile, iterate=lambda p: iter(other))
+            state = 'other'
+        elif ev == 'register-off':
+            g.register(_Pile, iterate=False)
+            state = 'off'
+        elif ev == 'register-own':
+            g.register(_Pile, iterate=iter)
+            state = 'default'
+    return R(None, 'ok', nontrivial='fold' in history and len(set(history)) > 1, steps=len(history), tags={kind} | set(history))
+
+
+def gen_registration():
+    evs = ['fold', 'register-other', 'register-off', 'register-own']
+    out = []
+    for kind in ('sum', 'flatten', 'fold', 'merge'):
+        for n in (2, 3, 4):
+            for h in itertools.product(evs, repeat=n):
+                if h[-1] == 'fold' and any(e != 'fold' for e in h):
+                    out.append([kind, list(h)])
+    return out
+
+
 def subs(tier, only=None):
     from ..engine import fast_tracebacks
     fast_tracebacks()
@@ -495,6 +552,9 @@ def subs(tier, only=None):
             rule='case = (spec term, input A, input B): one spec object evaluated on A, A again and B, each against the plain reduction; '
                  'input snapshots, init() call count and identity disjointness of inputs and results',
             min_nontrivial=10000, min_outcomes=2, required_tags=['fold', 'sum', 'flatten', 'merge', 'list', 'tuple', 'gen', 'dictkeys', 'scalar'] + list(MENUS)),
+        Sub('registration-histories', gen_registration(), run_registration,
+            rule='case = (Sum | Flatten | Fold | Merge, history of <= 4 events over {fold, register another iterate handler, register iterate=False, register iter} '
+                 'ending in a fold) on one Glommer and ONE spec object: every fold uses the registration in force', min_nontrivial=300, min_outcomes=1),
         Sub('functions', gen_func(tier), run_func,
             rule='case = (flatten(levels 0..3, init) | merge(init), input, spec= absent | T | a path to where the input sits)', min_nontrivial=1000, min_outcomes=2,
             required_tags=['flatten', 'merge', 'spec=wrap', 'spec=T']),
